@@ -747,7 +747,7 @@ struct Op { std::string op; long a = 0, b = 0, p = 0; };
 // returns false if the operation is out of contract in the current state (nothing is executed or recorded)
 static bool inContract(Inst& in, const Op& o) {
 	const std::string& op = o.op;
-	if (op == "ctor" || op == "copy") return in.m == nullptr;
+	if (op == "ctor" || op == "copy" || op == "move") return in.m == nullptr;
 	if (!in.m) return false;
 	if (op == "dtor") {
 #if VH_MANUAL
@@ -792,13 +792,16 @@ static bool execOp(int idx, const Op& o) {
 	emitCall(in, name, o.a, o.b, o.p);
 	g_rec.flush();
 	if (op == "ctor") { g_curFsm = in.storage; in.loggerOn = VH_LOG != 0 && o.p != 0; construct(in, static_cast<int>(o.a), static_cast<uint64_t>(o.b)); }
-	else if (op == "copy") {
+	else if (op == "copy" || op == "move") {
 		Inst* src = (o.a >= 0 && o.a < MAX_INST) ? g_inst[o.a] : nullptr;
 		if (src && src->m) {
 			in.ctx = src->ctx; in.loggerOn = src->loggerOn;
 			std::memset(in.storage, 0x5C, sizeof in.storage);
 			g_curFsm = in.storage;
-			in.m = new (static_cast<void*>(in.storage)) FSM::Instance{*src->m};
+			if (op == "move")	// the moved-from machine stays a valid, equivalent machine (it is destroyed like any other later)
+				in.m = new (static_cast<void*>(in.storage)) FSM::Instance{static_cast<FSM::Instance&&>(*src->m)};
+			else
+				in.m = new (static_cast<void*>(in.storage)) FSM::Instance{*src->m};
 #if VH_LOG
 			in.m->attachLogger(in.loggerOn ? &in.logger : nullptr);
 #endif
